@@ -468,7 +468,7 @@ class Client(ClientLike):
             msg_list (Iterable[int]): A list of numeric message IDs to subscribe to
         """
         msg_list = list(msg_list)  # cast arbitrary iterable to list
-        for mt in msg_list:
+        for mt in list(msg_list):  # iterate over a copy, entries are removed below
             if mt in self.subscribed_types:
                 warn(
                     f"Message ID {mt} is already subscribed, ignored from subscription_context"
@@ -490,7 +490,7 @@ class Client(ClientLike):
         """
 
         msg_list = list(msg_list)  # cast arbitrary iterable to list
-        for mt in msg_list:
+        for mt in list(msg_list):  # iterate over a copy, entries are removed below
             if mt not in self.subscribed_types:
                 warn(
                     f"Message ID {mt} is not subscribed, ignored from paused_subscription_context"
